@@ -398,6 +398,11 @@ func (p *service) onPublish(msg *message.PublishMessage) error {
 
 	for i, s := range p.subs {
 		if s != nil {
+			// On the client side a callback registered through several filters of one
+			// request is called once per received message, not once per matching filter.
+			if p.client && subscriberSeen(p.subs[:i], s) {
+				continue
+			}
 			fn := s.(*OnPublishFunc)
 			// use the possibly downgraded qos
 			msg.SetQoS(p.qoss[i])
@@ -408,4 +413,14 @@ func (p *service) onPublish(msg *message.PublishMessage) error {
 	}
 
 	return nil
+}
+
+// subscriberSeen reports whether s is already among subs.
+func subscriberSeen(subs []interface{}, s interface{}) bool {
+	for _, o := range subs {
+		if o == s {
+			return true
+		}
+	}
+	return false
 }
